@@ -190,8 +190,9 @@ def all_mutants(schema, pop, rng, per_class=2):
                     i3 = copy.deepcopy(inst)
                     i3.parts[0] = (anc.upper(), [('null',) if a.optional else gen_min_value(schema, a.type, ids, member) for (_o, a, d) in schema.all_attrs(anc)])
                     if all(x is not None for x in i3.parts[0][1]):
-                        add(Mut('abstract entity keyword', 'simple instance', inst.id, [i3 if x.id == inst.id else x for x in insts], anc))
-                    break
+                        # an abstract entity that is itself a subtype is declared by a different grammar production than an abstract root
+                        add(Mut('abstract entity keyword' + (' (abstract entity that is itself a subtype)' if schema.entity(anc).supers else ''),
+                                'simple instance', inst.id, [i3 if x.id == inst.id else x for x in insts], anc))
             # duplicate id: a second instance (copy) bearing the same id right after
             dup = copy.deepcopy(inst)
             pos_i = ids.index(inst.id)
@@ -388,6 +389,13 @@ def matrix_schema():
              M.Entity('cx1', supers=['cx'], attrs=[M.Attr('c1', M.REAL()), M.Attr('c1s', M.STR())]),
              M.Entity('cx2', supers=['cx'], attrs=[M.Attr('c2', M.NAMED('colour')), M.Attr('c2o', M.INT(), True)]),
              M.Entity('cx3', supers=['cx'], attrs=[M.Attr('c3', M.NAMED('sel1')), M.Attr('c3b', M.T('BOOLEAN'))])]
+    # abstract root, abstract subtype (with and without a SUPERTYPE OF expression), concrete leaves
+    ents += [M.Entity('ab0', abstract=True, attrs=[M.Attr('p0', M.INT())]),
+             M.Entity('ab1', supers=['ab0'], abstract=True, attrs=[M.Attr('p1', M.INT())]),
+             M.Entity('ab2', supers=['ab1'], attrs=[M.Attr('p2', M.INT())]),
+             M.Entity('ab3', supers=['ab0'], abstract=True, sexpr=('oneof', [('leaf', 'ab4'), ('leaf', 'ab5')]), attrs=[M.Attr('p3', M.STR())]),
+             M.Entity('ab4', supers=['ab3'], attrs=[M.Attr('p4', M.INT())]),
+             M.Entity('ab5', supers=['ab3'], attrs=[M.Attr('p5', M.INT())])]
     return M.Schema('c03_matrix', types, ents)
 
 
